@@ -5,7 +5,7 @@
 #include "vp.h"
 using namespace asl;
 
-// p0 = size, p1 = variant: 0 put/content, 1 write in two pieces + append + reopen, 2 stream operators
+// p0 = size, p1 = variant: 0 put/content, 1 write in two pieces + append + reopen, 2 stream operators, 3 one object queried/reopened/closed/queried
 extern "C" void h_bytes(void)
 {
 	int n = vp_param(0), variant = vp_param(1);
@@ -18,6 +18,19 @@ extern "C" void h_bytes(void)
 		int k = vp_concretize(vp_range(0, n));
 		{ File f(path, File::WRITE); vp_assert(f.write(d, k) == k, "write returns the count"); }
 		{ File f(path, File::APPEND); vp_assert(f.write(d + k, n - k) == n - k, "append write returns the count"); }
+	} else if (variant == 3) {
+		// one File object over its whole life: queried, reopened for appending, closed, queried again
+		int k = vp_concretize(vp_range(0, n));
+		{ File w(path, File::WRITE); w.write(d, k); }
+		File f(path);
+		vp_assert(f.size() == k && f.isFile(), "size() of the existing file");
+		vp_assert(f.open(File::APPEND), "reopen for appending");
+		vp_assert(f.write(d + k, n - k) == n - k, "append write returns the count");
+		f.close();
+		vp_assert(f.size() == n, "size() of the same object after write and close equals the bytes written");
+		ByteArray c3 = f.content();
+		vp_assert(c3.length() == n, "content() of the same object after write and close");
+		for (int i = 0; i < n && i < c3.length(); i++) vp_assert(c3[i] == d[i], "content() bytes of the same object");
 	} else {
 		File f(path, File::WRITE);
 		for (int i = 0; i < n; i++) f << d[i];
